@@ -553,6 +553,7 @@ var c19Templates = func() []c19Tpl {
 		{id: "function-aggregate", sql: "DECLARE ag AGGREGATE (cur, @p DEFAULT $a) AS BEGIN VAR @s := 0; VAR @v; WHILE @v IN cur DO @s := @s + IFNULL(@v, @p); END WHILE; RETURN @s; END; " +
 			"SELECT ag(c1, $b) FROM t; SELECT ag(c1) OVER (ORDER BY c1) FROM t; SELECT ag(DISTINCT c3, 1, 2) FROM t; SELECT ag() FROM t;", fresh: true},
 		{id: "prepared", sql: "PREPARE s FROM 'SELECT ?, :a, ?'; EXECUTE s USING $a, $b AS a, 3; EXECUTE s USING $a; EXECUTE s; PREPARE s FROM 'SELECT 1'; DISPOSE PREPARE s; EXECUTE s;", fresh: true},
+		{id: "prepared-nested", sql: "PREPARE pa FROM 'SELECT ?, :n'; PREPARE pb FROM 'EXECUTE pa USING ?, :m AS n'; EXECUTE pb USING $a, $b AS m; PREPARE pc FROM 'EXECUTE pb USING ? + 1, ? AS m'; EXECUTE pc USING $a, $b; EXECUTE pa USING $a, $b AS n;", fresh: true},
 		{id: "prepared-bad", sql: "PREPARE s FROM 'SELECT ? FROM';", fresh: true},
 		{id: "prepared-literal", sql: "PREPARE s FROM #a; EXECUTE s USING $a;", fresh: true},
 		{id: "control-flow", sql: "VAR @i := 0; WHILE @i < 3 DO @i := @i + 1; IF @i = $a THEN BREAK; ELSEIF $b THEN CONTINUE; END IF; END WHILE; CASE $a WHEN $b THEN PRINT 1; ELSE PRINT 2; END CASE;", fresh: true},
